@@ -1,4 +1,5 @@
 import Ledger.Sched.Model
+import Ledger.Sched.Kinds
 
 /-!
 # The writers' programs (core-only)
@@ -106,7 +107,8 @@ def sendBody (q : Send) (fail : Err → Prog) (refuse : String → Prog) (succ :
   | .unbounded => write
   | .bounded x =>
     .stmt (.getBalances [q.src]) fun o => onErr o <|
-      if (o.vals.headD 0) + (x : Int) ≥ (q.amt : Int) then write else refuse "insufficient-funds"
+      -- a zero amount is never refused (nothing is taken, whatever the balance)
+      if q.amt = 0 ∨ (o.vals.headD 0) + (x : Int) ≥ (q.amt : Int) then write else refuse "insufficient-funds"
 
 /-- `runLog` + `revertTransaction` -/
 def revertBody (q : Revert) (fail : Err → Prog) (refuse : String → Prog) (succ : Nat → Nat → Prog) : Prog :=
@@ -255,6 +257,29 @@ def Prog.next : Prog → Option Stmt
 def Prog.cont : Prog → Out → Prog
   | .done r, _ => .done r
   | .stmt _ k, o => k o
+
+def Stmt.kindK : Stmt → Kind
+  | .begin => .begin | .commit => .commit | .rollback => .rollback
+  | .savepoint => .savepoint | .release => .release | .rollbackTo => .rollbackTo
+  | .lockLedgerX _ => .lockLedgerX | .lockLedgerS _ => .lockLedgerS | .unlockLedgerS _ => .unlockLedgerS
+  | .updateState _ => .updateState | .setval _ => .setval | .readState _ => .readState
+  | .readIK _ _ => .readIK | .readLastLog _ => .readLastLog
+  | .getBalances _ => .getBalances | .updateVolumes _ => .updateVolumes | .insertTx _ _ _ => .insertTx
+  | .advLockLog _ => .advLockLog | .insertLog _ _ _ _ _ _ => .insertLog
+  | .revertUpdate _ _ g => if g then .revertUpdate else .revertUpdateUnguarded
+  | .createBlocks _ _ => .createBlocks
+
+/-- the statement kinds along the path the program takes under the answers `f` -/
+def Prog.pathK (f : Stmt → Out) : Nat → Prog → List Kind
+  | 0, _ => []
+  | _, .done _ => []
+  | fuel + 1, .stmt s k => s.kindK :: Prog.pathK f fuel (k (f s))
+
+/-- the response the program ends with under the answers `f` -/
+def Prog.answer (f : Stmt → Out) : Nat → Prog → Option Resp
+  | 0, _ => none
+  | _, .done r => some r
+  | fuel + 1, .stmt s k => Prog.answer f fuel (k (f s))
 
 /-- unfold a program along the answers `f` gives (at most `fuel` statements) -/
 def Prog.path (f : Stmt → Out) : Nat → Prog → List String
